@@ -52,8 +52,8 @@ def p_total(t):
 
 def run(ctx):
     rng = ctx.rng
-    texts = [near_miss_text(rng) for _ in range(ctx.n(8000, 100000))]
-    texts += [G.control_text(rng) for _ in range(ctx.n(6000, 80000))]
+    texts = [near_miss_text(rng) for _ in range(ctx.n(6000, 100000))]
+    texts += [G.control_text(rng) for _ in range(ctx.n(4000, 80000))]
     texts += [emailish_text(rng) for _ in range(ctx.n(3000, 40000))]
     texts += [G.unicode_text(rng, 60) for _ in range(ctx.n(2000, 30000))]
     texts += [G.corrupt_doc(rng, D.render(rng, D.document(rng))) for _ in range(ctx.n(2000, 30000))]
